@@ -28,6 +28,19 @@ func runC04(c *Ctx) {
 	c04PageLSN(c, "C04.3")
 	c02RecoveryEnds(c, "C04.4")
 	c02RedoGuard(c, "C04.5")
+	c02RecordDescribes(c, "C04.6")
+	c02FreshLSN(c, "C04.7")
+	// the log append of a statement is in the same bracket as its page changes (otherwise the timer
+	// flush can write an unlogged change and its LSN to the data file)
+	sub := NewCtx("C04", c.W)
+	runC13(sub)
+	c.Rule("C04.8", sub.Rules["C13.2"])
+	for _, o := range sub.Obs {
+		if o.Rule == "C13.2" {
+			o.Rule = "C04.8"
+			c.Obs = append(c.Obs, o)
+		}
+	}
 }
 
 // errSucc returns the successor block taken when the error bound to call's last result is non-nil.
